@@ -186,7 +186,7 @@ class Build:
         info = dict(janet=os.path.join(vdir, "janet"), lib=os.path.join(vdir, "libjanet.a"), dir=vdir, cc=cc,
                     cflags=list(cflags), ldflags=list(ldflags) + CLIBS, tree=self.tree,
                     include=["-I" + os.path.join(self.tree, "src/include"), "-I" + os.path.join(self.tree, "src/conf"),
-                             "-I" + os.path.join(self.tree, "src/core")],
+                             "-iquote", os.path.join(self.tree, "src/core")],
                     boot=os.path.join(self.dir, "boot"))
         lk = self._lock(name)
         try:
